@@ -69,7 +69,7 @@ def run(chk: core.Check, tier: str, seed: int) -> None:
     chk.sample({"query": core.dec_text(recs[3]["q"]), "doc": core.dec_value(recs[3]["doc"]), "locs": recs[3]["locs"]})
     chk.sample({"query": core.dec_text(recs[-1]["q"]), "doc": core.dec_value(recs[-1]["doc"]), "locs": recs[-1]["locs"]})
     common.judge(chk, recs, "c01", what="Trace: filter-free find() records vs Eval.tla",
-                 only=lambda c: c.startswith("C13 find") or not c.startswith(("C03", "C13")))
+                 only=lambda c: c.startswith(("C13 find", "C03")) or not c.startswith(("C03", "C13")))
     chk.rule = (
         f"{n_fixed} records = small trees (height<=2, width<=2, names a/b, scalars 0/'a') x fixed query battery; "
         f"{n_rand} seeded records = random filter-free queries (1-4 segments, selector lists, all spellings) on random "
